@@ -119,6 +119,13 @@ func c01FuncAtoms() []*ref.Expr {
 		ref.Bin("=", ref.Call("str", iv()), ref.Value()),
 		ref.Bin(">", ref.Bin("*", fv(), ref.Fl(0.5)), ref.Fl(0.5)),
 		ref.Bin("=", ref.Bin("+", iv(), ref.Fl(0.5)), ref.Fl(2.5)),
+		// the same field extended twice inside one comparison (in-place append bugs)
+		ref.Bin("<", ref.Bin("+", ref.Key(), ref.S("a")), ref.Bin("+", ref.Key(), ref.S("b"))),
+		ref.Bin("=", ref.Bin("+", ref.Key(), ref.S("a")), ref.Bin("+", ref.Key(), ref.S("b"))),
+		ref.Bin("!=", ref.Bin("+", ref.Value(), ref.S("a")), ref.Bin("+", ref.Value(), ref.S("b"))),
+		ref.Bin("=", ref.Bin("+", ref.Key(), ref.Value()), ref.Bin("+", ref.Key(), ref.S("1"))),
+		ref.Btw(ref.Bin("+", ref.Key(), ref.S("m")), ref.Bin("+", ref.Key(), ref.S("a")), ref.Bin("+", ref.Key(), ref.S("z"))),
+		ref.In(ref.Bin("+", ref.Value(), ref.S("x")), ref.Bin("+", ref.Value(), ref.S("y")), ref.Bin("+", ref.Value(), ref.S("x"))),
 		// chains that the optimiser re-associates / folds
 		ref.Bin("=", ref.Bin("+", ref.Bin("+", ref.Key(), ref.S("a")), ref.S("b")), ref.S("aab")),
 		ref.Bin("^=", ref.Bin("+", ref.Bin("+", ref.Value(), ref.S("-")), ref.S("x")), ref.S("1-x")),
